@@ -228,7 +228,7 @@ def record(sc):
                ncols=B * nc, lgtol=lg(sc["tol"]), lgfloor=lg(relfloor), lgrho=lgrho, zero=zero_cols, dt=sc["dt"], all_conv0=False)
     steps = []
     fin = dict(raised=False, warned=False, iters=0, meanres=NA, tside=0, tsym=True, ritz=True, quad=NA, lanczos=NA, zero_ok=True,
-               scale=NA, precond=NA, obs=[])
+               scale=NA, precond=NA, obs=[], budget_applies=False)
     if not sc["nan"] and sc["max_tri"] <= sc["max_iter"]:
         e, r = col_stats(x0)
         cfg["all_conv0"] = bool((r < 1e-10).all())
@@ -296,9 +296,23 @@ def record(sc):
             tri = torch.triu(torch.ones(T.shape[-1], T.shape[-1]), 2).bool()
             fin["tsym"] = bool(ok_shape and torch.equal(T, T.mT) and not T[..., tri].any() and not T[..., tri.T].any() and torch.isfinite(T).all())
             if fin["tsym"] and not sc["nan"] and tcheck:
-                rz = torch.linalg.eigvalsh(T)
+                # rows of T written after a residual has fallen below the accuracy floor are outside the property's claim (the safe divisions
+                # zero the recurrence coefficients there): the clauses are evaluated on the leading block written above the floor
+                mfloor = 0
+                for jb in range(1, T.shape[-1] + 1):
+                    ob = run_cg(A, rhs_arg, sc, jb, guess=guess, pre=pre, tol=0.0)
+                    if ob["raised"] or ob["iters"] != jb:
+                        break
+                    _, rb = col_stats((ob["x"].unsqueeze(-1) if vector else ob["x"]).to(torch.float64))
+                    live_all = [cc for cc in range(B * nc) if not zero_cols[cc]]
+                    if not bool((rb[live_all] > relfloor).all()):
+                        break
+                    mfloor = jb
+                mfloor = min(mfloor + 1, T.shape[-1]) if mfloor else 0
+                T = T[..., :mfloor, :mfloor]
                 live = [c for c in range(sc["n_tri"]) if kinds[c] != "zero"]
-                if live:
+                if live and mfloor >= 1:
+                    rz = torch.linalg.eigvalsh(T)
                     rzl = rz[live]
                     slack = 1e-6 if dtype == torch.float64 else 1e-3
                     fin["ritz"] = bool((rzl >= lam_lo * (1 - slack) - 1e-12).all() and (rzl <= lam_hi * (1 + slack)).all())
@@ -330,6 +344,30 @@ def record(sc):
                                         quad = 1.0
                         if sc["kappa"] <= 1e2:
                             fin["lanczos"] = lg(worst)
+                        # does the independent recurrence break down (coupling < 1e-5) inside the budget?  If not, the budget must be honoured
+                        need = min(sc["max_tri"], n, sc["max_iter"] - 1)
+                        ok = True
+                        for c in live:
+                            for b in range(B):
+                                z = rhs.to(torch.float64).reshape(B, n, nc)[b, :, c]
+                                al, be = lanczos_ref(M64.reshape(B, n, n)[b], z / z.norm(), need + 1)
+                                if len(al) < min(need + 1, n) or (be and min(be[:max(0, need - 1)] or [1.0]) < 1e-5 * lam_hi):
+                                    ok = False
+                        # (the CG recurrence stops producing coefficients once a residual falls below the accuracy floor: the safe division zeroes beta)
+                        not_frozen = False
+                        if ok:
+                            not_frozen = True
+                            for jb in range(max(1, need - 3), need + 1):      # residuals of the iterates just before the budget ends (tolerance 0: no early exit)
+                                ob = run_cg(A, rhs_arg, sc, jb, guess=guess, pre=pre, tol=0.0)
+                                if ob["raised"] or ob["iters"] != jb:
+                                    not_frozen = False
+                                    break
+                                Xb = (ob["x"].unsqueeze(-1) if vector else ob["x"]).to(torch.float64)
+                                _, rb = col_stats(Xb)
+                                if not bool((rb > relfloor).all()):
+                                    not_frozen = False
+                                    break
+                        fin["budget_applies"] = bool(ok and not_frozen and dtype == torch.float64 and sc["kappa"] <= 1e4)
                         if quad is not None:
                             fin["quad"] = lg(quad)
     return dict(cfg=cfg, steps=steps, final=fin)
@@ -377,6 +415,19 @@ def scenarios(tier, seed):
             sc["scale"] = 1.0
         sc["limit"] = kap <= 100 and dt == "f64" and sc["guess"] != "exact" and "tiny" not in cols and "huge" not in cols
         out.append(sc)
+    # a fixed block aimed at the tridiagonal budget: more than 10 Lanczos steps requested, tolerance met before the budget is used up
+    k = 0
+    for n in (12, 16, 24):
+        for kap in (10, 100):
+            for tol in (1.0, 1e-2):
+                for max_tri in (n, 11, 20):
+                    for max_iter in (n + 3, 2 * n + 10):
+                        k += 1
+                        if tier == "quick" and k % 3:
+                            continue
+                        out.append(dict(id=100000 + k, seed=seed * 31 + k, n=n, family=fams[k % 3], kappa=kap, batch=[[], [2]][k % 2], ncols=1 + k % 2, vector=False,
+                                        cols=["normal"] * (1 + k % 2), guess="none", precond="none", tol=tol, max_iter=max_iter, n_tri=1, max_tri=min(max_tri, max_iter), by_size=False,
+                                        dt="f64", eps=None, nan="", budgets=min(max_iter, 45), scale=1.0, limit=False))
     return out
 
 
@@ -405,6 +456,10 @@ def run(tier, seed):
     if r["violated"]:
         raise core.MachineryError("control model violates %s" % r["violated"])
     res.add_tlc("MC_C08", r)
+    rl = tlc.run("MC_C08", "c08.live." + tier, dict(CgVariant="code", MaxIterBound=5 if tier == "quick" else 6, Emit=False), properties=["Termination"], spec="FairSpec", timeout=1800)
+    if rl["violated"]:
+        raise core.MachineryError("control model: the loop does not always terminate (%s)" % rl["violated"])
+    res.add_tlc("MC_C08(liveness)", rl)
     rej = {}
     for v, inv in CTL_VARIANTS.items():
         rv = tlc.run("MC_C08", "c08.mc.%s.%s" % (tier, v), dict(CgVariant=v, MaxIterBound=12, Emit=False), invariants=CTL_INVS, view="View", timeout=1800)
@@ -428,7 +483,7 @@ def run(tier, seed):
     base = dict(cfg=dict(n=8, max_iter=6, max_tri=6, n_tri=0, by_size=False, nan=False, ncols=1, lgtol=-6644, lgfloor=-26575, lgrho=-1000, zero=[False], dt="f64", all_conv0=False),
                 steps=[dict(err=[-1000 * j], res=[-1000 * j], changed=[j > 0], warned=j < 6, meanres=-1000 * j, it=j) for j in range(0, 7)],
                 final=dict(raised=False, warned=True, iters=6, meanres=-6000, tside=0, tsym=True, ritz=True, quad=NA, lanczos=NA, zero_ok=True, scale=NA, precond=NA,
-                           obs=[[False, False]] * 6))
+                           obs=[[False, False]] * 6, budget_applies=False))
     base["steps"][6]["warned"] = True
     c0 = json.loads(json.dumps(base)); c0["tid"] = 900000
     c1 = json.loads(json.dumps(base)); c1["tid"] = 900001; c1["steps"][2]["err"][0] = c1["steps"][1]["err"][0] + 500
